@@ -386,3 +386,38 @@ def with_fixed_leaf(spec, leaf_id, value):
                 rec(c)
     rec(s)
     return s
+
+
+def mixed_shapes(slice_i=0, n_slices=1):
+    """Second exhaustive family: every threshold node with MIXED children - one or two leaves (boolean a, integer t in
+    -2..2) plus one compound child Y (Any / All / AtMost(1) / Xor over the booleans b, c; explicit or generated id) -
+    AtLeast with every value 0..3 and sign +1/-1/default, AtMost 0..2, All, Any; alone and under Not, as Imply
+    condition, in XNor, under All, under AtMost."""
+    a = {"k": "leaf", "id": "a", "b": [0, 1]}
+    b = {"k": "leaf", "id": "b", "b": [0, 1]}
+    c = {"k": "leaf", "id": "c", "b": [0, 1]}
+    d = {"k": "leaf", "id": "d", "b": [0, 1]}
+    t = {"k": "leaf", "id": "t", "b": [-2, 2]}
+    ys = []
+    for yid in ("Y", None):
+        ys += [{"k": "Any", "id": yid, "c": [b, c]}, {"k": "All", "id": yid, "c": [b, c]},
+               {"k": "AtMost", "v": 1, "id": yid, "c": [b, c]}, {"k": "Xor", "id": yid, "c": [b, c]}]
+    i = 0
+    for y in ys:
+        for leaves in ([a], [t], [a, t], [a, b]):
+            ch = leaves + [y]
+            xs = []
+            for xid in ("X", None):
+                for v in range(0, 4):
+                    for s in (1, -1, None):
+                        xs.append({"k": "AtLeast", "v": v, "s": s, "id": xid, "c": ch})
+                for v in range(0, 3):
+                    xs.append({"k": "AtMost", "v": v, "id": xid, "c": ch})
+                xs.append({"k": "All", "id": xid, "c": ch})
+                xs.append({"k": "Any", "id": xid, "c": ch})
+            for x in xs:
+                for f in (x, {"k": "Not", "c": [x]}, {"k": "Imply", "id": None, "c": [x, d]}, {"k": "XNor", "id": None, "c": [x, d]},
+                          {"k": "All", "id": "W", "c": [x, d]}, {"k": "AtMost", "v": 1, "id": None, "c": [x, d]}):
+                    if i % n_slices == slice_i:
+                        yield f
+                    i += 1
